@@ -46,7 +46,13 @@ TrCrash == /\ IsEvent("crash") /\ Consume
            /\ SCrash(ProcHids(Ev.p)) /\ op' = [h \in Hids |-> IF h \in ProcHids(Ev.p) THEN NoOp ELSE op[h]]
 (* watchdog: the call has not returned. Legal only for an acquire that may block. *)
 TrStuck == IsEvent("Stuck") /\ Consume /\ (\E h \in ProcHids(Ev.p) : op[h].name = "acq" /\ MayBlock(h)) /\ UNCHANGED <<svars, op>>
-TrInfo == (IsEvent("sys") \/ IsEvent("gate") \/ IsEvent("obs") \/ IsEvent("quiet")) /\ Consume /\ UNCHANGED <<svars, op>>
+TrInfo == (IsEvent("sys") \/ IsEvent("gate") \/ IsEvent("quiet")) /\ Consume /\ UNCHANGED <<svars, op>>
+(* the parent looked into the kernel's name space while every process was parked (at a system-call gate or idle): where the check knows
+   which name a key belongs to ("ex": pairs <<name, exists>>), the abstract name exists exactly when the kernel has it.  Besides being a
+   binding of its own, this decides at once whether a CREATE that was killed in mid-flight had already removed / re-created the name. *)
+TrObs == /\ IsEvent("obs") /\ Consume
+         /\ (HasField(Ev, "ex") => \A i \in 1..Len(Ev.ex) : (Ev.ex[i][2] = 1) = (gen[Ev.ex[i][1]] # 0))
+         /\ UNCHANGED <<svars, op>>
 (* k-exclusion needs no separate observation: an acquire that returns while no unit is available has no   *)
 (* linearization. The occupancy the actors count themselves is logged for the reader only (its value is     *)
 (* read before the event's sequence number is taken, so it cannot be judged at the event's position).      *)
@@ -55,6 +61,6 @@ TrCs == IsEvent("cs") /\ Consume /\ hd[Ev.h].g # 0 /\ UNCHANGED <<svars, op>>
 TrEpoch == /\ IsEvent("Epoch") /\ Consume
            /\ gen' = [n \in Names |-> 0] /\ val' = <<>> /\ hd' = [h \in Hids |-> Closed] /\ apend' = [h \in Hids |-> "idle"]
            /\ creating' = [h \in Hids |-> NoCreate] /\ op' = [h \in Hids |-> NoOp]
-TNext == TrCall \/ DoLin \/ TrRet \/ TrCrash \/ TrStuck \/ TrInfo \/ TrCs \/ TrEpoch
+TNext == TrCall \/ DoLin \/ TrRet \/ TrCrash \/ TrStuck \/ TrInfo \/ TrObs \/ TrCs \/ TrEpoch
 TSpec == TInit /\ [][TNext]_tv
 ====
